@@ -180,3 +180,48 @@ def register(reg):
                  "implies(key in self.__dict__ and type is None, result == self.__dict__[key])"],
         raises={},
     )
+    _register_dict_header(reg)
+
+
+def _register_dict_header(reg):
+    """parse_dict_header / parse_list_header: total on every header text (C07), quotes stripped item-wise"""
+    import z3
+    from pyvc.values import VBuiltin, VStr
+    P = "C07"
+
+    def _unquote(it, a, k, n):
+        # urllib.parse.unquote(text, encoding=<one of four known codecs>): errors='replace' -> total; result abstract
+        s = it.need(a[0])
+        return VStr(z3.String(it.ctx.fresh_name("unquote")), "str")
+    reg.overrides["std:urllib.parse.unquote"] = lambda interp: VBuiltin("urllib.parse.unquote", _unquote)
+    # urllib.request.parse_http_list: splits at top-level commas, keeps quoted strings together; total (trusted)
+    reg.overrides["std:urllib.request.parse_http_list"] = lambda interp: VBuiltin(
+        "urllib.request.parse_http_list", lambda it, a, k, n: it.fresh("List[str]", "http_list"))
+    reg.contract(
+        "werkzeug/http.py:parse_list_header", prop="C07,C06", params={"value": "str"}, returns="List[str]", modifies=[],
+        ensures=["len(result) >= 0"], raises={},
+        loops={0: {"inv": ["len(result) == _i"], "types": {"result": "List[str]"}}},
+    )
+    reg.contract(
+        "werkzeug/http.py:parse_dict_header", prop=P, params={"value": "str"}, modifies=[],
+        ensures=["True"], raises={},
+        replay=_replay_dict_header,
+        loops={0: {"inv": ["True"], "types": {"result": "Dict[str, Optional[str]]", "value": "str"}}},
+    )
+
+
+def _replay_dict_header(reg, c, inputs):
+    """the item list is abstract in the model (trusted splitter): replay on the model's header text and on a small
+    corpus of header texts (bounded native search)"""
+    from pyvc import runtime
+    fn = runtime.resolve_real("werkzeug/http.py:parse_dict_header")
+    nc = runtime.NativeContract(reg, c)
+    corpus = [inputs.get("value", ""), " =", "=x", " ", "a", "a=b", "a*=utf-8''x", "a*=''", 'a="', "*=x", " *=x", "a= ", 'a="b"', ",", "a=b, =c,  , d",
+              '" =x"', '"\xa0=\xa0"', 'a=1, " =1"', '" "', '"*=x"', '" *=x"', '"="']
+    for v in corpus:
+        if not isinstance(v, str):
+            continue
+        fails = nc.check_call(fn, [v], {}, {"value": v})
+        if fails:
+            return [f"(header text {v!r}) " + f for f in fails]
+    return []
